@@ -10,39 +10,66 @@ use vcore::prng::Rng;
 
 use crate::ctx::Ctx;
 
-const BOUNDS: [f64; 3] = [1.0, 4.0, 16.0];
+thread_local! {
+    /// bucket bounds of the history being run (three by default, sometimes a few dozen)
+    static BOUNDS: std::cell::RefCell<Vec<f64>> = std::cell::RefCell::new(vec![1.0, 4.0, 16.0]);
+}
 
-#[derive(Clone, Debug, Default, PartialEq)]
+fn bounds() -> Vec<f64> {
+    BOUNDS.with(|b| b.borrow().clone())
+}
+
+fn choose_bounds(rng: &mut Rng) {
+    let b = match rng.below(8) {
+        // more than 16 and more than 64 bounds, all below the largest observed values
+        0 => (0..20).map(|i| 0.5 + i as f64 * 0.75).collect(),
+        1 => (0..70).map(|i| 0.25 + i as f64 * 0.2).collect(),
+        _ => vec![1.0, 4.0, 16.0],
+    };
+    BOUNDS.with(|x| *x.borrow_mut() = b);
+}
+
+#[derive(Clone, Debug, PartialEq)]
 struct HRef {
     count: u64,
     sum: f64,
-    cum: [u64; 3],
+    cum: Vec<u64>,
+}
+
+impl Default for HRef {
+    fn default() -> HRef {
+        HRef { count: 0, sum: 0.0, cum: vec![0; BOUNDS.with(|b| b.borrow().len())] }
+    }
 }
 
 impl HRef {
     fn observe(&mut self, v: f64) {
         self.count += 1;
         self.sum += v;
-        for (i, b) in BOUNDS.iter().enumerate() {
-            if v <= *b {
-                self.cum[i] += 1;
+        BOUNDS.with(|bs| {
+            for (i, b) in bs.borrow().iter().enumerate() {
+                if v <= *b {
+                    self.cum[i] += 1;
+                }
             }
-        }
+        });
     }
     fn absorb(&mut self, o: &HRef) {
         self.count += o.count;
         self.sum += o.sum;
-        for i in 0..3 {
+        for i in 0..self.cum.len() {
             self.cum[i] += o.cum[i];
         }
     }
 }
 
+fn href_of(hp: &prometheus::proto::Histogram) -> HRef {
+    HRef { count: hp.get_sample_count(), sum: hp.get_sample_sum(), cum: hp.get_bucket().iter().map(|b| b.cumulative_count()).collect() }
+}
+
 fn read_hist(h: &Histogram) -> HRef {
     let m = h.metric();
-    let hp = m.get_histogram();
-    let b = hp.get_bucket();
-    HRef { count: hp.get_sample_count(), sum: hp.get_sample_sum(), cum: [b[0].cumulative_count(), b[1].cumulative_count(), b[2].cumulative_count()] }
+    href_of(m.get_histogram())
 }
 
 fn fail(cx: &mut Ctx, rule: &str, site: &str, msg: String, log: &[String]) {
@@ -203,7 +230,8 @@ fn finish(cx: &mut Ctx, site: &str, log: &[String]) {
 
 fn histograms(cx: &mut Ctx, rng: &mut Rng) {
     let site = "LocalHistogram";
-    let h = Histogram::with_opts(HistogramOpts::new("c12_h", "h").buckets(BOUNDS.to_vec())).unwrap();
+    choose_bounds(rng);
+    let h = Histogram::with_opts(HistogramOpts::new("c12_h", "h").buckets(bounds())).unwrap();
     let mut shared = HRef::default();
     let mut locals: Vec<Option<LocalHistogram>> = Vec::new();
     let mut accs: Vec<Option<HRef>> = Vec::new();
@@ -284,6 +312,18 @@ fn histograms(cx: &mut Ctx, rng: &mut Rng) {
 
 const TUPLES: &[&str] = &["a", "b", "ab"];
 
+/// Label values for one history: usually three, sometimes a dozen, sometimes well over a hundred
+/// (local caches and child maps then grow past their small sizes).
+fn tuple_pool(rng: &mut Rng) -> Vec<&'static str> {
+    static MANY: std::sync::OnceLock<Vec<String>> = std::sync::OnceLock::new();
+    let many = MANY.get_or_init(|| (0..160).map(|i| format!("t{}", i)).collect());
+    match rng.below(12) {
+        0 | 1 => many[..12].iter().map(|s| s.as_str()).collect(),
+        2 => many.iter().map(|s| s.as_str()).collect(),
+        _ => TUPLES.to_vec(),
+    }
+}
+
 enum CV {
     F(CounterVec, Vec<Option<LocalCounterVec>>),
     I(IntCounterVec, Vec<Option<LocalIntCounterVec>>),
@@ -301,11 +341,13 @@ fn counter_vecs(cx: &mut Ctx, rng: &mut Rng) {
     let mut child_val: Vec<u64> = Vec::new();
     let mut caches: Vec<Option<BTreeMap<&str, (usize, u64)>>> = Vec::new(); // per local vec: tuple -> (child id, acc)
     let mut log: Vec<String> = Vec::new();
-    let nops = 10 + rng.usize_below(if cx.thorough { 100 } else { 45 });
+    let pool = tuple_pool(rng);
+    let nops = if pool.len() > 100 { 400 + rng.usize_below(300) } else { 10 + rng.usize_below(if cx.thorough { 100 } else { 45 }) };
     for _ in 0..nops {
         let live: Vec<usize> = caches.iter().enumerate().filter(|(_, a)| a.is_some()).map(|(i, _)| i).collect();
-        let op = rng.below(12);
-        let t = *rng.pick(TUPLES);
+        // with many label values most operations are updates, so that the caches actually fill up
+        let op = if pool.len() > 100 && !live.is_empty() && rng.chance(5, 6) { 1 + rng.below(4) } else { rng.below(12) };
+        let t = *rng.pick(&pool);
         let amount = 1 + rng.below(9);
         cx.part.evaluations += 1;
         if live.is_empty() || op == 0 {
@@ -420,18 +462,20 @@ fn counter_vecs(cx: &mut Ctx, rng: &mut Rng) {
 
 fn histogram_vecs(cx: &mut Ctx, rng: &mut Rng) {
     let site = "LocalHistogramVec";
-    let vec = HistogramVec::new(HistogramOpts::new("c12_hv", "h").buckets(BOUNDS.to_vec()), &["l"]).unwrap();
+    choose_bounds(rng);
+    let vec = HistogramVec::new(HistogramOpts::new("c12_hv", "h").buckets(bounds()), &["l"]).unwrap();
     let mut locals: Vec<Option<LocalHistogramVec>> = Vec::new();
     let mut next_child = 0usize;
     let mut exported: BTreeMap<&str, usize> = BTreeMap::new();
     let mut child_val: Vec<HRef> = Vec::new();
     let mut caches: Vec<Option<BTreeMap<&str, (usize, HRef)>>> = Vec::new();
     let mut log: Vec<String> = Vec::new();
-    let nops = 10 + rng.usize_below(if cx.thorough { 100 } else { 45 });
+    let pool = tuple_pool(rng);
+    let nops = if pool.len() > 100 { 400 + rng.usize_below(300) } else { 10 + rng.usize_below(if cx.thorough { 100 } else { 45 }) };
     for _ in 0..nops {
         let live: Vec<usize> = caches.iter().enumerate().filter(|(_, a)| a.is_some()).map(|(i, _)| i).collect();
-        let op = rng.below(12);
-        let t = *rng.pick(TUPLES);
+        let op = if pool.len() > 100 && !live.is_empty() && rng.chance(5, 6) { 1 + rng.below(4) } else { rng.below(12) };
+        let t = *rng.pick(&pool);
         let v = *rng.pick(&[0.0, 1.0, 3.0, 4.0, 9.0, 16.0, 50.0]);
         cx.part.evaluations += 1;
         if live.is_empty() || op == 0 {
@@ -508,9 +552,7 @@ fn histogram_vecs(cx: &mut Ctx, rng: &mut Rng) {
         let mfs = vec.collect();
         let mut got: BTreeMap<String, HRef> = BTreeMap::new();
         for m in mfs[0].get_metric() {
-            let hp = m.get_histogram();
-            let b = hp.get_bucket();
-            got.insert(m.get_label()[0].value().to_string(), HRef { count: hp.get_sample_count(), sum: hp.get_sample_sum(), cum: [b[0].cumulative_count(), b[1].cumulative_count(), b[2].cumulative_count()] });
+            got.insert(m.get_label()[0].value().to_string(), href_of(m.get_histogram()));
         }
         let want: BTreeMap<String, HRef> = exported.iter().map(|(t, c)| (t.to_string(), child_val[*c].clone())).collect();
         if got != want {
